@@ -404,14 +404,11 @@ func (m *Manager) writeSnapshot(w io.Writer) error {
 		for _, id := range ids {
 			meta := version.ValueLogs[id]
 			metaCopy := meta
-			if meta.Valid {
-				if err := writeEdit(w, Edit{Type: EditUpdateValueLog, ValueLog: &metaCopy}); err != nil {
-					return err
-				}
-			} else {
-				if err := writeEdit(w, Edit{Type: EditDeleteValueLog, ValueLog: &metaCopy}); err != nil {
-					return err
-				}
+			// An update edit carries the offset and the valid flag, so an invalidated
+			// segment reloads exactly as it is held in memory (a delete edit would reset
+			// its offset).
+			if err := writeEdit(w, Edit{Type: EditUpdateValueLog, ValueLog: &metaCopy}); err != nil {
+				return err
 			}
 		}
 	}
